@@ -1,4 +1,5 @@
 import TypifyModel.Model.SerdeSer
+import TypifyModel.Model.RoundTrip
 import TypifyModel.Proofs.Lemmas.ConvLemmas
 import TypifyModel.Proofs.Lemmas.WireTy
 /-! What `#[serde(flatten)]` does to three properties on the current tree (model: `Serde.deFlat`, `Serde.foldFields`,
@@ -283,5 +284,24 @@ example : deStruct evX shSpace 5 shProps false (.obj [("sides", .int 4), ("k1", 
     .ok (.struct [("sides", .int 4), ("extra", .map [("k1", .int 7)])]) := by rfl
 example : hasFlatten shProps = true ∧ flatMaps shSpace shProps = true := by decide
 example : unionShape evSpace [⟨"subtype_0", .flatten, .optional, 6⟩, ⟨"subtype_1", .flatten, .optional, 8⟩] = true := by decide
+
+/-! ### non-vacuity of the positive theorems (C02 `conv_accepts`, C05 `enc_sound`, C03 `de_se_de` / `rt_contains`) on a struct
+    with typed additional properties -/
+
+def apSpace : Space := { entries := [
+  (0, { details := .string }), (1, { details := .integer "i64" }), (2, { details := .map 0 1 }),
+  (3, { details := .struct "Sh" [⟨"sides", .none, .required, 1⟩, ⟨"extra", .flatten, .required, 2⟩] false none })] }
+
+/-- the side conditions of the round-trip theorems hold for it … -/
+example : RoundTrip.closedOkB apSpace [0, 1, 2, 3] = true := by decide
+example : RoundTrip.fieldsOkFlatB apSpace [⟨"sides", .none, .required, 1⟩, ⟨"extra", .flatten, .required, 2⟩] = true := by decide
+/-- … and so do those of `conv_accepts` / `enc_sound` for `{sides: integer, additionalProperties: integer}` -/
+example : Conv.structFlatB (fun _ t => t == 1) apSpace [("sides", .integer none none)] ["sides"] (.schema (.integer none none))
+    [⟨"sides", .none, .required, 1⟩, ⟨"extra", .flatten, .required, 2⟩] false = true := by decide
+/-- the round trip itself, evaluated: the additional members come back, key-sorted -/
+example :
+    (match de evX apSpace 6 3 (.obj [("zz", .int 2), ("sides", .int 4), ("k1", .int 7)]) with
+     | .ok v => se apSpace 6 3 v
+     | .error e => .error e) = .ok (.obj [("sides", .int 4), ("k1", .int 7), ("zz", .int 2)]) := by rfl
 
 end TypifyModel.Flatten
